@@ -17,7 +17,7 @@ def is_write(c):
 
 
 def clause_dedup_first(prog, rep, pm):
-    dedup = [c for c in pm.live_calls() if K.is_storage_trait_call(c, "find_processed_message_by_event_id")]
+    dedup = K.pure_lookup_calls(prog, pm, "find_processed_message_by_event_id")
     rep.floor("dedup-first", "dedup lookup in MDK::process_message", len(dedup), 1)
     wr = A.ReachCache(prog, lambda c: is_write(c) or (last_seg(c.self_adt) == "MlsGroup" and c.name in ("load", "process_message", "merge_staged_commit", "merge_pending_commit", "store_pending_proposal")))
     n = 0
@@ -46,6 +46,7 @@ def clause_state_table(prog, rep, pm, dedup):
         by_path[(c.resolved, c.bb)] = c
 
     table = {}
+    dedup_ids = set(id(c.callee) for c in (dedup or []))
     for v in adt["variants"]:
         S = v["name"]
 
@@ -63,7 +64,7 @@ def clause_state_table(prog, rep, pm, dedup):
                         return ("int", r if nm == "eq" else 1 - r)
             if nm in ("le", "lt") and "tracing" in (cal.get("path") or ""):
                 return ("int", 0)
-            if nm == "find_processed_message_by_event_id" and (cal.get("trait") or "").startswith("mdk_storage_traits::"):
+            if (nm == "find_processed_message_by_event_id" and (cal.get("trait") or "").startswith("mdk_storage_traits::")) or id(cal) in dedup_ids:
                 return ("variant", "Result", "Ok", (("variant", "Option", "Some", (("symrec", S),)),))
             if nm == "map_err" and args and args[0][0] == "variant" and args[0][1] == "Result" and args[0][2] == "Ok":
                 return args[0]
@@ -93,6 +94,8 @@ def clause_state_table(prog, rep, pm, dedup):
         # tracing macros expand to calls carrying their macro backtrace: make it visible to the hook
         def stop(cal, args):
             # the dedup step ends at the first fallible mdk-core step (event validation / decryption / dispatch)
+            if id(cal) in dedup_ids:
+                return None      # the lookup itself (possibly through a pure lookup helper) is part of the dedup step
             t = prog.fns.get(cal.get("resolved") or cal.get("path"))
             if t is not None and t.crate == "mdk_core" and not t.is_closure() and "Result<" in (t.ret or ""):
                 return "PROCEED"
